@@ -328,7 +328,7 @@ META = {
     "explanation": "Commit ordering and the temp-file typestate of the s3s-fs writers as dominance/reachability facts: no client rejection is "
                    "reachable after done() renamed the temp file into place; the body copy must have succeeded before done(); object content is "
                    "written only through the FileWriter (temp file, then rename tmp->dest, cleanup flag cleared only after the rename, Drop removes "
-                   "the temp file); temp names come from an atomic counter. Crash points inside rename and concurrent schedules are not decided.",
+                   "the temp file); temp names come from an atomic counter. Crash points inside rename and concurrent schedules are not decided. Also: no await point between creating the temp file and arming its cleanup; the body copy finishes successfully only because its source ended; end-of-stream provenance of the body adapters (C08.R6) as a prerequisite.",
     "not_decided": ["crash points inside rename", "concurrent schedules (only distinct temp files are decided)", "partial fs::copy in copy_object",
                     "metadata side files written after the commit"],
     "assumptions": ["rustc nightly MIR construction", "fs::rename within one directory tree is atomic (POSIX)"],
